@@ -284,7 +284,10 @@ def features(beh):
         if k in ("str", "fstr") and n + 1 < len(regs) and regs[n + 1][2] in ("str", "fstr"):
             s2, e2 = regs[n + 1][:2]
             between = text[e:s2]
-            if between.strip(" \t") == "" and text[e2:e2 + 1] == ".":
+            joins = set(beh["joins"])
+            blank = all(c in " \t" or (c == "\n" and i in joins) or (c == "\\" and (i + 1) in joins)
+                        for i, c in enumerate(between, e))
+            if blank and text[e2:e2 + 1] == ".":
                 f.add("attribute-of-adjacent-string-literals")
             if between == "" and not tri and text[s2:s2 + 3] == q * 3:
                 f.add("short-string-then-triple-quote-same-quote")
